@@ -65,6 +65,8 @@ class Engine:
         self.exp_args = {}     # exp var id -> argument SV
         self.signs = {}        # term id -> +1/-1 for terms whose sign is known (declared bounds, sqrt, exp)
         self.nonneg = set()    # term ids known >= 0
+        self.trig_atoms = []   # (angle term, cos var, sin var) of fresh trig pairs
+        self.exp_atoms = []    # (argument SV, exp var)
         self.keep = []         # keep z3 refs alive (ids are reused otherwise)
 
     def fresh(self, name, sort='real'):
@@ -627,6 +629,7 @@ class SV:
         r = SV(t=v)
         E.memo[key] = (r, t)
         E.exp_args[v.get_id()] = self
+        E.exp_atoms.append((self, v))
         E.signs[v.get_id()] = 1
         E.keep.append(v)
         return r
